@@ -269,6 +269,26 @@ fn run_on(root: &Path, fsname: &'static str, tier: &str, seed: u64, rep: &mut Re
       cx.rep.nontrivial(case ^ (fsname.len() as u64) << 40);
     } }
   }
+  // ---- unusual entry names: every ordered pair of different name sets must be told apart
+  let long = "n".repeat(200);
+  let special: Vec<Vec<String>> = vec![
+    vec![], vec!["a".into()], vec![".a".into()], vec!["a".into(), ".a".into()], vec![".hidden".into(), "x".into()], vec!["x".into()],
+    vec![".env".into(), ".gitignore".into()], vec![".env".into()], vec!["A".into()], vec!["a b".into()], vec!["a".into(), "b".into()],
+    vec!["\u{e9}".into()], vec!["e".into()], vec!["a.txt".into()], vec!["a.txt".into(), "a".into()], vec![long.clone()], vec![format!("{}x", &long[..199])],
+    vec!["-".into()], vec!["~".into()], vec!["..a".into()], vec!["a.".into()],
+  ];
+  for (i, n1) in special.iter().enumerate() {
+    for (j, n2) in special.iter().enumerate() {
+      if i == j { continue; }
+      case += 1;
+      if replay.map_or(false, |c| c != case) { continue; }
+      cx.case = case;
+      cx.rep.evaluations += 1;
+      cx.rep.count("special_name_set_pairs");
+      pair(&mut cx, "HashChecker", &HashChecker, &p, &PState::Dir(n1.clone(), 0), &PState::Dir(n2.clone(), 0), Some(false));
+      cx.rep.nontrivial(case ^ (fsname.len() as u64) << 40);
+    }
+  }
   cx.rep.add(&format!("directory_pairs_listing_in_a_colliding_order_{}", fsname), colliding_orders);
   cx.rep.seen("filesystems", fsname);
   let root_dir = cx.root.clone();
@@ -284,7 +304,7 @@ pub fn run(tier: &str, seed: u64, replay: Option<u64>) -> Report {
   let collide: u64 = rep.counters.iter().filter(|(k, _)| k.starts_with("directory_pairs_listing_in_a_colliding_order")).map(|(_, v)| *v).sum();
   rep.sample(|| J::s("File(8192 bytes, variant 0, mtime slot 0) stamped, File(8192 bytes, variant 2 = last byte differs, mtime slot 0) checked: Exists consistent, Modified consistent, Hash inconsistent"));
   rep.sample(|| J::s("Dir created [\"a\", \"bc\"] stamped, changed in place to [\"ab\", \"c\"], checked: Hash must be inconsistent"));
-  rep.rule = "Path states: absent; files of sizes around the 8 KiB read buffer and beyond (quick: 0,1,8191,8192,8193,16384; thorough: 13 sizes up to 100000) in 4 content variants (different everywhere / only last byte / only first byte) with explicitly set modification times (2 slots); small directories; and concatenation-ambiguous directory name sets ({p,qr}/{pq,r}, {pq,rs}/{p,qrs}, {p,q,rs}/{pq,r,s}, {pqr}/{pq,r}) over random letters, created in every order, changed in place. For ALL ordered pairs (state when stamped, state when checked) x {Exists, Modified, Hash}: path and reader stamps agree, untouched => consistent, and the verdict equals equality of the documented aspect (hash: file<->directory kind change and same-name-set directories that were recreated are not claimed). Writer route: file written through Resource::write, stamp_writer == path stamp; stamped readers must still deliver the full content; Resource::write must create/truncate and refuse directories. Run on the work directory's file system and on tmpfs (/dev/shm) because directory iteration order is file-system specific. non-trivial = pair with different states.".into();
+  rep.rule = "Path states: absent; files of sizes around the 8 KiB read buffer and beyond (quick: 0,1,8191,8192,8193,16384; thorough: 13 sizes up to 100000) in 4 content variants (different everywhere / only last byte / only first byte) with explicitly set modification times (2 slots); small directories; and concatenation-ambiguous directory name sets ({p,qr}/{pq,r}, {pq,rs}/{p,qrs}, {p,q,rs}/{pq,r,s}, {pqr}/{pq,r}) over random letters, created in every order, changed in place; plus all ordered pairs of 21 name sets with unusual names (dot-prefixed, spaces, upper case, non-ASCII, 200 characters, trailing dot). For ALL ordered pairs (state when stamped, state when checked) x {Exists, Modified, Hash}: path and reader stamps agree, untouched => consistent, and the verdict equals equality of the documented aspect (hash: file<->directory kind change and same-name-set directories that were recreated are not claimed). Writer route: file written through Resource::write, stamp_writer == path stamp; stamped readers must still deliver the full content; Resource::write must create/truncate and refuse directories. Run on the work directory's file system and on tmpfs (/dev/shm) because directory iteration order is file-system specific. non-trivial = pair with different states.".into();
   rep.floor("directory pairs that list in a colliding order were exercised", collide > 0 || replay.is_some());
   rep.floor("writer route comparisons ran", rep.get("writer_route_comparisons") > 10 || replay.is_some());
   rep.floor("reader content comparisons ran", rep.get("reader_content_comparisons") > 10 || replay.is_some());
